@@ -58,6 +58,7 @@ func (f *Fam) Exec(op string) (obs string, fails []common.Failure) {
 		obs = f.doEnd()
 		if !f.dead {
 			f.checkEnd(obs, fail)
+			f.checkMaturity(before, f.app.Snap(), fail)
 		}
 	case "commit":
 		obs = f.doCommit()
@@ -89,8 +90,8 @@ func (f *Fam) Exec(op string) (obs string, fails []common.Failure) {
 	}
 	if !f.dead {
 		after := f.app.Snap()
-		f.invariants(after, op, fail)
 		f.checkParams(before, after, w, obs, fail)
+		f.invariants(after, op, fail)
 	}
 	return
 }
@@ -202,7 +203,7 @@ func (f *Fam) invariants(s *Snapshot, op string, fail func(string, string, strin
 			}
 		}
 		// C06 (c)
-		if v.Status != 0 && v.Tokens.LT(sdk.NewInt(f.minStake)) {
+		if v.Status != 0 && !f.minChanged && v.Tokens.LT(sdk.NewInt(f.minStake)) {
 			fail("min-stake", "C06:below-minimum", fmt.Sprintf("after %q: validator %s status %d holds %s < minimum %d", clip(op), a, v.Status, v.Tokens, f.minStake))
 		}
 	}
@@ -219,7 +220,7 @@ func (f *Fam) invariants(s *Snapshot, op string, fail func(string, string, strin
 			if b {
 				n++
 			}
-			if w > 0 && i >= w {
+			if w > 0 && i >= w && !f.windowChanged {
 				fail("window-bits", "C08:bit-outside-window", fmt.Sprintf("after %q: %s has a missed-bit at index %d >= window %d", clip(op), a, i, w))
 			}
 		}
@@ -318,6 +319,29 @@ func (f *Fam) checkEnd(obs string, fail func(string, string, string)) {
 	for a := range f.tm {
 		if v, ok := s.Vals[a]; ok && v.Jailed {
 			fail("jailed-no-power", "C09:jailed-in-set", fmt.Sprintf("EndBlock %d: jailed validator %s still in Tendermint's set", f.height, a))
+		}
+	}
+}
+
+// checkMaturity: C06 timing. An unstaking validator is removed, with its whole stake returned, at
+// the first EndBlock whose time is at or after its completion time, and never earlier.
+func (f *Fam) checkMaturity(before, after *Snapshot, fail func(string, string, string)) {
+	for a, v := range before.Vals {
+		_, still := after.Vals[a]
+		if v.Status == 1 && v.Unstake <= f.now {
+			if still {
+				fail("matures-on-time", "C06:not-matured-on-time", fmt.Sprintf("EndBlock %d at %d: unstaking validator %s (completion %d) was not paid out", f.height, f.now, a, v.Unstake))
+			} else if got := balOf(after, a, Denom).Sub(balOf(before, a, Denom)); !got.Equal(v.Tokens) {
+				fail("matures-in-full", "C06:payout-ne-stake", fmt.Sprintf("EndBlock %d: validator %s matured with stake %s but its account gained %s", f.height, a, v.Tokens, got))
+			}
+		}
+		if !still && !(v.Status == 1 && v.Unstake <= f.now) {
+			fail("never-early", "C06:removed-early", fmt.Sprintf("EndBlock %d at %d: validator %s (status %d, completion %d) was removed/paid out before its completion time", f.height, f.now, a, v.Status, v.Unstake))
+		}
+		if still && v.Status != 1 {
+			if d := balOf(after, a, Denom).Sub(balOf(before, a, Denom)); !d.IsZero() {
+				fail("never-early", "C06:endblock-paid-non-mature", fmt.Sprintf("EndBlock %d: account of validator %s (status %d) changed by %s", f.height, a, v.Status, d))
+			}
 		}
 	}
 }
@@ -525,6 +549,14 @@ func (f *Fam) checkParams(before, after *Snapshot, w []string, obs string, fail 
 	isTx := w[0] == "tx" && w[1] == "deliver"
 	if isTx {
 		t = parseTx(w)
+	}
+	for _, k := range changed {
+		if k == "pos/StakeMinimum" {
+			f.minChanged = true
+		}
+		if k == "pos/SignedBlocksWindow" {
+			f.windowChanged = true
+		}
 	}
 	if len(changed) > 0 {
 		sort.Strings(changed)
